@@ -175,24 +175,38 @@ struct Emit<C> {
     /// 0 never, 1 success, 2 error, 3 always (the contracts' reply handlers just return Ok)
     #[serde(default)]
     reply_on: u8,
+    /// name of the module the message under test goes to (handed to the reply as payload)
+    #[serde(default)]
+    tag: String,
 }
 fn subs<C: Clone + std::fmt::Debug + PartialEq + schemars::JsonSchema>(m: Emit<C>) -> Vec<SubMsg<C>> {
     let mode = m.reply_on;
+    let tag = Binary::from(m.tag.as_bytes().to_vec());
     m.msgs
         .into_iter()
         .map(|x| match mode {
-            1 => SubMsg::reply_on_success(x, 7),
-            2 => SubMsg::reply_on_error(x, 7),
-            3 => SubMsg::reply_always(x, 7),
+            1 => SubMsg::reply_on_success(x, 7).with_payload(tag.clone()),
+            2 => SubMsg::reply_on_error(x, 7).with_payload(tag.clone()),
+            3 => SubMsg::reply_always(x, 7).with_payload(tag.clone()),
             _ => SubMsg::new(x),
         })
         .collect()
 }
-fn reply_custom(_: DepsMut<MyQuery>, _: Env, _: cosmwasm_std::Reply) -> StdResult<Response<MyMsg>> {
-    Ok(Response::new())
+/// the reply handlers follow up with one more message (seed C17e: messages returned from a reply —
+/// also from one that handles a failure — reach their modules like any other).  The follow-up goes to the
+/// gov module, or to the ibc module when the payload says the message under test was the gov one.
+fn follow_up<C>(r: &cosmwasm_std::Reply) -> CosmosMsg<C> {
+    if r.payload.as_slice() == b"gov" {
+        CosmosMsg::Ibc(IbcMsg::CloseChannel { channel_id: "follow-up".into() })
+    } else {
+        CosmosMsg::Gov(GovMsg::Vote { proposal_id: 4242, option: VoteOption::Abstain })
+    }
 }
-fn reply_empty(_: DepsMut, _: Env, _: cosmwasm_std::Reply) -> StdResult<Response> {
-    Ok(Response::new())
+fn reply_custom(_: DepsMut<MyQuery>, _: Env, r: cosmwasm_std::Reply) -> StdResult<Response<MyMsg>> {
+    Ok(Response::new().add_message(follow_up::<MyMsg>(&r)))
+}
+fn reply_empty(_: DepsMut, _: Env, r: cosmwasm_std::Reply) -> StdResult<Response> {
+    Ok(Response::new().add_message(follow_up::<Empty>(&r)))
 }
 fn exec_custom(_: DepsMut<MyQuery>, _: Env, _: MessageInfo, m: Emit<MyMsg>) -> StdResult<Response<MyMsg>> {
     Ok(Response::new().add_submessages(subs(m)))
@@ -252,8 +266,8 @@ fn messages() {
         .build(|router, _, storage| router.bank.init_balance(storage, &user, vec![coin(u0, "x")]).unwrap());
     let code_c = app.store_code(Box::new(ContractWrapper::new(exec_custom, inst_custom, query_custom).with_sudo(perm_custom).with_migrate(perm_custom).with_reply(reply_custom)));
     let code_e = app.store_code(Box::new(ContractWrapper::new_with_empty(exec_empty, inst_empty, query_empty).with_sudo_empty(perm_empty).with_migrate_empty(perm_empty).with_reply_empty(reply_empty)));
-    let kc = app.instantiate_contract(code_c, user.clone(), &Emit::<MyMsg> { msgs: vec![], reply_on: 0 }, &[], "kc", Some(user.to_string())).unwrap();
-    let ke = app.instantiate_contract(code_e, user.clone(), &Emit::<Empty> { msgs: vec![], reply_on: 0 }, &[], "ke", Some(user.to_string())).unwrap();
+    let kc = app.instantiate_contract(code_c, user.clone(), &Emit::<MyMsg> { msgs: vec![], reply_on: 0, tag: String::new() }, &[], "kc", Some(user.to_string())).unwrap();
+    let ke = app.instantiate_contract(code_e, user.clone(), &Emit::<Empty> { msgs: vec![], reply_on: 0, tag: String::new() }, &[], "ke", Some(user.to_string())).unwrap();
     let origin = choose(3); // 0 top level, 1 custom-typed contract, 2 Empty-typed contract (lifted)
     let amt = sym_u128("amt", 1, BAL);
     let custom_kinds = kinds(Some(MyMsg { tag: "hello".into() }), &other, amt);
@@ -292,9 +306,9 @@ fn messages() {
             return app.execute_multi(user.clone(), vec![pay.clone(), custom_kinds[which].1.clone()]);
         }
         let (target, code, body) = if origin == 1 {
-            (kc.clone(), code_c, to_json_binary(&Emit { msgs: vec![custom_kinds[which].1.clone()], reply_on }).unwrap())
+            (kc.clone(), code_c, to_json_binary(&Emit { msgs: vec![custom_kinds[which].1.clone()], reply_on, tag: module.to_string() }).unwrap())
         } else {
-            (ke.clone(), code_e, to_json_binary(&Emit { msgs: vec![empty_kinds[which].1.clone()], reply_on }).unwrap())
+            (ke.clone(), code_e, to_json_binary(&Emit { msgs: vec![empty_kinds[which].1.clone()], reply_on, tag: module.to_string() }).unwrap())
         };
         let call: CosmosMsg<MyMsg> = match entry {
             0 => cosmwasm_std::WasmMsg::Execute { contract_addr: target.to_string(), msg: body, funds: vec![] }.into(),
@@ -345,7 +359,17 @@ fn messages() {
             .filter(|t| t.len() > 1 && !["stargate", "any", "grpc"].contains(t))
             .all(|t| squeezed.contains(t))
     };
-    check_native("exactly_one_module_invocation", entries.len() == 1, || format!("{:?}", entries));
+    // a reply that is due follows up with one message to another module, from the same contract
+    let reply_due = (module_fails && (reply_on == 2 || reply_on == 3)) || (!module_fails && (reply_on == 1 || reply_on == 3));
+    check_native("exactly_the_expected_module_invocations", entries.len() == 1 + reply_due as usize, || format!("reply due: {}, {:?}", reply_due, entries));
+    if reply_due {
+        if let Some(f) = entries.get(1) {
+            witness("follow_up_from_reply_routed");
+            let fm = if module == "gov" { "ibc" } else { "gov" };
+            check_native("follow_up_of_a_reply_reaches_its_module", f.module == fm && f.kind == "exec", || format!("{:?} expected {}", f, fm));
+            check_native("sender_intact", f.sender.as_ref() == Some(&want_sender), || format!("follow-up: {:?} expected {}", f.sender, want_sender));
+        }
+    }
     if let Some(e) = entries.first() {
         witness("routed");
         check_native("reaches_the_module_configured_for_its_kind", e.module == module && e.kind == "exec", || format!("{:?} expected {}", e, module));
@@ -381,7 +405,7 @@ fn queries() {
         .with_stargate(RecStargate)
         .build(|_, _, _| {});
     let code_c = app.store_code(Box::new(ContractWrapper::new(exec_custom, inst_custom, query_custom).with_sudo(perm_custom).with_migrate(perm_custom).with_reply(reply_custom)));
-    let kc = app.instantiate_contract(code_c, user.clone(), &Emit::<MyMsg> { msgs: vec![], reply_on: 0 }, &[], "kc", Some(user.to_string())).unwrap();
+    let kc = app.instantiate_contract(code_c, user.clone(), &Emit::<MyMsg> { msgs: vec![], reply_on: 0, tag: String::new() }, &[], "kc", Some(user.to_string())).unwrap();
     let reqs: Vec<(&str, QueryRequest<MyQuery>, bool)> = vec![
         ("staking", QueryRequest::Staking(StakingQuery::BondedDenom {}), true),
         ("custom", QueryRequest::Custom(MyQuery { tag: "q".into() }), true),
@@ -435,8 +459,8 @@ fn bank_routing() {
         .build(|_, _, _| {});
     let code_c = app.store_code(Box::new(ContractWrapper::new(exec_custom, inst_custom, query_custom).with_sudo(perm_custom).with_migrate(perm_custom).with_reply(reply_custom)));
     let code_e = app.store_code(Box::new(ContractWrapper::new_with_empty(exec_empty, inst_empty, query_empty).with_sudo_empty(perm_empty).with_migrate_empty(perm_empty).with_reply_empty(reply_empty)));
-    let kc = app.instantiate_contract(code_c, user.clone(), &Emit::<MyMsg> { msgs: vec![], reply_on: 0 }, &[], "kc", Some(user.to_string())).unwrap();
-    let ke = app.instantiate_contract(code_e, user.clone(), &Emit::<Empty> { msgs: vec![], reply_on: 0 }, &[], "ke", Some(user.to_string())).unwrap();
+    let kc = app.instantiate_contract(code_c, user.clone(), &Emit::<MyMsg> { msgs: vec![], reply_on: 0, tag: String::new() }, &[], "kc", Some(user.to_string())).unwrap();
+    let ke = app.instantiate_contract(code_e, user.clone(), &Emit::<Empty> { msgs: vec![], reply_on: 0, tag: String::new() }, &[], "ke", Some(user.to_string())).unwrap();
     let amt = sym_u128("amt", 0, BAL);
     let lists: Vec<Vec<Coin>> = vec![vec![], vec![coin(amt, "x")], vec![coin(u(0), "x")], vec![coin(amt, "x"), coin(u(7), "y")]];
     let coins = lists[choose(lists.len())].clone();
@@ -451,8 +475,8 @@ fn bank_routing() {
     LOG.with(|l| l.borrow_mut().clear());
     let r = catch(|| match origin {
         0 => app.execute(user.clone(), CosmosMsg::<MyMsg>::Bank(bank.clone())),
-        1 => app.execute_contract(user.clone(), kc.clone(), &Emit::<MyMsg> { msgs: vec![CosmosMsg::Bank(bank.clone())], reply_on: 0 }, &[]),
-        _ => app.execute_contract(user.clone(), ke.clone(), &Emit::<Empty> { msgs: vec![CosmosMsg::Bank(bank.clone())], reply_on: 0 }, &[]),
+        1 => app.execute_contract(user.clone(), kc.clone(), &Emit::<MyMsg> { msgs: vec![CosmosMsg::Bank(bank.clone())], reply_on: 0, tag: String::new() }, &[]),
+        _ => app.execute_contract(user.clone(), ke.clone(), &Emit::<Empty> { msgs: vec![CosmosMsg::Bank(bank.clone())], reply_on: 0, tag: String::new() }, &[]),
     });
     let r = match r {
         Ok(r) => r,
@@ -476,7 +500,7 @@ fn bank_routing() {
 pub fn scenarios(_tier: &str) -> Vec<Scenario> {
     vec![
         Scenario::new("bank_messages_reach_the_configured_bank", &["routed"], bank_routing),
-        Scenario::new("messages_kinds_origins_outcomes", &["routed", "module_ok", "module_failed", "module_failure_caught_by_reply"], messages),
+        Scenario::new("messages_kinds_origins_outcomes", &["routed", "module_ok", "module_failed", "module_failure_caught_by_reply", "follow_up_from_reply_routed"], messages),
         Scenario::new("queries_kinds_origins_outcomes", &["routed"], queries),
     ]
 }
